@@ -16,6 +16,8 @@ as broken):
                `s.lower()`, other functions translated in the same module.
                numpy/pandas code read per element: `v[mask]`, `v[mask] op= e`, `tbl[mask, 'col'] = e`, `.values`,
                `.round()`, `.clip(a, b)`, `.abs()`, `.astype('int')`, `.isnull()`, `.fillna(v)`, `&`, `|`, `~`,
+               loops: `loop={'first': prefix}` + `carried=[(expr, type)]` translates ONE ITERATION of a for/while loop
+               as a step function of the carried variables (continue ends it, break adds a boolean result),
                `np.log2` / `np.exp2` / `np.sqrt` (oracles: Section variables, in alphabetical order), NaN-propagating arithmetic on optional numbers
   parameters : (key, type[, coq name]) where key is a Python name, a dotted attribute or ANY source expression the
                function reads as an opaque input (e.g. "cnarr.chr_x_filter(diploid_parx_genome).values",
@@ -556,6 +558,11 @@ class FnTranslator:
             return self.block(rest, env, ret)          # docstring
         if isinstance(s, ast.Pass):
             return self.block(rest, env, ret)
+        if isinstance(s, (ast.Continue, ast.Break)) and getattr(self, 'loop_carried', None) is not None:
+            vals = [self.coerce(self.expr(ast.parse(c, mode='eval').body, env), t) for c, t in self.loop_carried]
+            if self.loop_has_break:
+                vals.append('true' if isinstance(s, ast.Break) else 'false')
+            return '(' + ', '.join(vals) + ')' if len(vals) > 1 else vals[0]
         if isinstance(s, ast.Return):
             if s.value is None:
                 raise Refuse('bare return')
@@ -712,6 +719,8 @@ class FnTranslator:
         for s in stmts:
             if isinstance(s, ast.Return):
                 return True
+            if isinstance(s, (ast.Continue, ast.Break)) and getattr(self, 'loop_carried', None) is not None:
+                return True
             if isinstance(s, ast.If) and s.orelse and self.always_returns(s.body) and self.always_returns(s.orelse):
                 return True
         return False
@@ -773,6 +782,29 @@ class FnTranslator:
             stmts = self.find_fragment(stmts, frag['first'], frag['last'])
             if stmts is None:
                 raise Refuse('%s.%s: fragment %r .. %r not found' % (self.rel, sp['name'], frag['first'], frag['last']))
+        self.loop_carried = None
+        self.loop_has_break = False
+        loop = sp.get('loop')
+        if loop:
+            # ONE ITERATION of a for/while loop as a function of the loop-carried variables (declared in `carried` as
+            # (source expression, type) pairs, all of them parameters too) and of the loop's own variables (parameters):
+            # the result is the tuple of the carried variables after the iteration, plus -- when the body contains a
+            # `break` -- a boolean telling whether the loop was left.  `continue` ends the iteration.
+            node = self.find_loop(stmts, loop['first'])
+            if node is None:
+                raise Refuse('%s.%s: loop %r not found' % (self.rel, sp['name'], loop['first']))
+            if node.orelse and not loop.get('ignore_else'):
+                raise Refuse('%s.%s: loop with an else clause (declare ignore_else to translate the body alone)' % (self.rel, sp['name']))
+            self.loop_carried = [(norm(c), t) for c, t in sp['carried']]
+            self.loop_has_break = any(isinstance(x, ast.Break) for x in ast.walk(ast.Module(body=node.body, type_ignores=[]))
+                                      if not isinstance(x, (ast.For, ast.While)) or x is node)
+            stmts = self.desugar(node.body)
+            tail = [ast.parse(c, mode='eval').body for c, _ in self.loop_carried]
+            end = ast.Continue()
+            end.lineno, end.col_offset = 0, 0
+            stmts = stmts + [end]
+            rty = [t for _, t in self.loop_carried] + (['B'] if self.loop_has_break else [])
+            sp = dict(sp, ret=(rty if len(rty) > 1 else rty[0]))
         rets = sp.get('returns')
         if rets:
             tup = ast.Tuple(elts=[ast.parse(r, mode='eval').body for r in rets], ctx=ast.Load()) if len(rets) > 1 \
@@ -784,6 +816,17 @@ class FnTranslator:
         rty = sp['ret']
         rcoq = COQTY[rty] if isinstance(rty, str) else '(' + ' * '.join(COQTY[t] for t in rty) + ')%type'
         return pre + 'Definition %s %s : %s :=\n  %s.' % (sp['coq'], params, rcoq, body)
+
+    def find_loop(self, stmts, first):
+        for x in stmts:
+            if isinstance(x, (ast.For, ast.While)) and ast.unparse(x).startswith(first):
+                return x
+            for sub in (getattr(x, 'body', None), getattr(x, 'orelse', None)):
+                if isinstance(sub, list) and sub and isinstance(sub[0], ast.stmt):
+                    r = self.find_loop(sub, first)
+                    if r is not None:
+                        return r
+        return None
 
     def find_fragment(self, stmts, first, last):
         """the contiguous statements, in whichever (nested) statement list holds them, from the one whose source
